@@ -1,6 +1,7 @@
 """C11 — addresses and their base58 / bech32 codecs are exact inverses and reject errors.
 
-Theorems: lean/EmbitModel/Props/C11.lean (+ C11Detect*.lean for the substitution-detection tables).
+Theorems: lean/EmbitModel/Props/C11.lean (+ C11Detect.lean for the substitution-detection tables, C11X.lean for the
+completeness statements and the characterisation of the cross-variant neighbours).
 Tie: every op is run on embit and on the Lean model (native driver); the Lean *spec* encoders
 (`b58.spec_enc*`, `bech32.spec_enc`, `addr.spec`) are the oracle for "the address text equals the
 Base58Check / BIP173 / BIP350 encoding"; the rejection half of the property is evaluated directly on embit
@@ -20,7 +21,7 @@ from embit.script import Script, address_to_scriptpubkey
 
 PROP = "C11"
 MODS = ["EmbitModel.Props.C11"]
-for _extra in ("EmbitModel.Props.C11Detect",):
+for _extra in ("EmbitModel.Props.C11Detect", "EmbitModel.Props.C11X"):
     if os.path.exists(os.path.join(VERIF, "lean", *_extra.split(".")) + ".lean"):
         MODS.append(_extra)
 
@@ -336,9 +337,8 @@ def check_segwit_string(c, kind, hrp, s, must_reject):
     info = {"kind": kind, "hrp": hrp, "string": s}
     d = i_bech32dec(hrp, s)
     c.tally("bech32:dec:" + kind + (":accepted" if d != "none" else ":rejected"))
-    # the model's decoder is proved sound only in parts (round trip, program rules, variant, case, detection):
-    # a difference here breaks the correspondence; the property predicate below is evaluated on embit itself
-    c.expect("bech32.dec %s %s" % (sx(hrp), sx(s)), d, info, proven=False)
+    # the model's decoder is proved to accept exactly the valid BIP173/BIP350 addresses (C11X.segwit_decode_iff)
+    c.expect("bech32.dec %s %s" % (sx(hrp), sx(s)), d, info)
     c.expect("bech32.raw_dec " + sx(s), i_rawdec(s), info, proven=False)
     if d != "none":
         # accepted => s is (up to case) the spec encoding of what was returned
@@ -405,6 +405,63 @@ def spec_valid_address(c, addr, script):
     return False, kind
 
 
+
+# ---- C11X: non-canonical spellings and the cross-variant neighbour, exercised on the real code
+CROSS_PATTERN_59 = {58: 1, 45: 22, 36: 31, 16: 25}   # offset from the end -> xor value (theorem C11X.cross_pattern)
+
+
+def hrps_have_lower():
+    """hypothesis of C11X.to_script_iff_exact, evaluated on the loaded table"""
+    return all(any("a" <= ch <= "z" for ch in p[3]) for p in netparams())
+
+
+def neighbour59(addr):
+    """C11X `neighbour`: symbol values of the last 59 characters xor the pattern; None when not applicable"""
+    sep = addr.rfind("1")
+    tail = addr[sep + 1:]
+    if len(tail) != 59 or any(ch not in REF_CHARSET for ch in tail):
+        return None
+    d = [REF_CHARSET.index(ch) for ch in tail]
+    for k, x in CROSS_PATTERN_59.items():
+        d[58 - k] ^= x
+    return addr[:sep + 1] + "".join(REF_CHARSET[x] for x in d)
+
+
+def check_spellings(c, addr, hrp, kind):
+    """theorems to_script_iff_exact / noncanonical_spelling_rejected / upper_case_spelling / segwit_decode_iff:
+    the all-upper-case spelling is accepted by bech32.decode and refused by address_to_scriptpubkey, a mixed-case
+    spelling is refused by both"""
+    if not hrps_have_lower():
+        c.tally("spelling:skipped(a table hrp has no lower-case letter)")
+        return
+    info = {"kind": kind, "address": addr, "hrp": hrp}
+    c.count(("spelling", addr), nontrivial=True)
+    up = addr.upper()
+    a_up = i_to_script(up)
+    d_low = i_bech32dec(hrp, addr)
+    d_up = i_bech32dec(hrp, up)
+    c.expect("addr.to_script " + sx(up), a_up, info, proven=False)
+    c.expect("bech32.dec %s %s" % (sx(hrp), sx(up)), d_up, info)
+    if a_up != "none":
+        c.fail("the all-upper-case spelling of a segwit address is not refused (theorem C11X.upper_case_spelling no longer "
+               "describes embit)", dict(info, op="addr.to_script", string=up, answer=a_up))
+    if d_up == "none" or d_up != d_low:
+        c.fail("bech32.decode does not accept the all-upper-case spelling of a valid address (BIP173; theorem "
+               "C11X.segwit_decode_iff)", dict(info, op="bech32.dec", string=up, answer=d_up, lower_answer=d_low))
+    letters = [i for i in range(len(addr)) if addr[i].isalpha()]
+    i = letters[len(letters) // 2]
+    mixed = addr[:i] + addr[i].upper() + addr[i + 1:]
+    if mixed != addr and mixed != up:
+        a_mx = i_to_script(mixed)
+        d_mx = i_bech32dec(hrp, mixed)
+        c.expect("addr.to_script " + sx(mixed), a_mx, info, proven=False)
+        c.expect("bech32.dec %s %s" % (sx(hrp), sx(mixed)), d_mx, info)
+        if a_mx != "none" or d_mx != "none":
+            c.fail("a mixed-case spelling of a segwit address is accepted (theorems C11.mixed_case_rejected, "
+                   "C11X.noncanonical_spelling_rejected)", dict(info, op="addr.to_script", string=mixed, answer=a_mx, decode=d_mx))
+    c.tally("spelling:upper-refused,decode-accepts;mixed-refused")
+
+
 def check_to_script(c, kind, s, origin=None, hamming=None):
     """address_to_scriptpubkey on a hostile string `s`: impl vs model, and the property predicate.
     origin = (address it was derived from, its script) when `s` is a mutation."""
@@ -430,6 +487,13 @@ def check_to_script(c, kind, s, origin=None, hamming=None):
                 c.fail("a valid address with <= 4 substitutions in the same checksum variant decodes",
                        dict(info, op="addr.to_script", script=hx(script)))
             else:
+                if (hamming is not None and hamming <= 4 and ko in ("p2wpkh", "p2wsh", "p2tr") and len(s) == len(origin[0])
+                        and s.split("1")[0] == origin[0].split("1")[0]):
+                    # C11X.cross_variant_iff / cross_variant_p2wpkh_none: the only accepted string of that kind
+                    if ko == "p2wpkh" or s.lower() != neighbour59(origin[0]):
+                        c.fail("a string within <= 4 data-part substitutions of an address decodes and is not the characterised "
+                               "cross-variant neighbour (theorems C11X.cross_variant_iff / cross_variant_p2wpkh_none)",
+                               dict(info, op="addr.to_script", script=hx(script), expected_only=neighbour59(origin[0])))
                 c.tally("to_script:" + kind + ":valid-neighbour(cross-variant)" if hamming is not None and hamming <= 4
                         else "to_script:" + kind + ":valid-other-address")
         else:
@@ -466,6 +530,7 @@ def check_address(c, name, pk, sh, hrp, netdict, kind, payload, mutate_budget, e
     if kind in ("p2pkh", "p2sh"):
         mutate_b58(c, addr, origin, mutate_budget, exhaustive1)
     else:
+        check_spellings(c, addr, hrp, kind)
         mutate_bech32(c, addr, hrp, origin, mutate_budget, exhaustive1)
 
 
@@ -761,6 +826,38 @@ def find_hop(ndata, search):
     return res
 
 
+_ALL_HOPS = {}
+
+
+def all_hops(ndata):
+    """every error pattern of weight <= 4 with the version symbol flipped 0<->1 whose syndrome is BECH32 xor BECH32M,
+    computed with embit's own bech32_polymod (xor-linear: syndrome(v) = polymod(v) xor polymod(0..0))"""
+    if ndata in _ALL_HOPS:
+        return _ALL_HOPS[ndata]
+    z = bech32.bech32_polymod([0] * ndata)
+    cols = []
+    for k in range(ndata):
+        row = []
+        for j in range(5):
+            v = [0] * ndata
+            v[ndata - 1 - k] = 1 << j
+            row.append(bech32.bech32_polymod(v) ^ z)
+        cols.append(row)
+    D = int(bech32.BECH32_CONST) ^ int(bech32.BECH32M_CONST)
+    vk = ndata - 1
+    target = D ^ cols[vk][0]
+    sols = set()
+    for a in range(vk):
+        for b in range(a + 1, vk):
+            for cc in range(b + 1, vk):
+                m = _solve(cols[a] + cols[b] + cols[cc], target)
+                if m is not None:
+                    e = {vk: 1, a: m & 31, b: (m >> 5) & 31, cc: (m >> 10) & 31}
+                    sols.add(tuple(sorted((k, x) for k, x in e.items() if x)))
+    _ALL_HOPS[ndata] = sorted(sols)
+    return _ALL_HOPS[ndata]
+
+
 def check_hop(c, addr, origin, search):
     sep = addr.rfind("1")
     data = [REF_CHARSET.index(ch) for ch in addr[sep + 1:]]
@@ -776,6 +873,30 @@ def check_hop(c, addr, origin, search):
     ham = sum(1 for x, y in zip(s, addr) if x != y)
     a = check_to_script(c, "bech32:cross-variant-hop", s, origin, ham)
     c.tally("hop:%d-symbols:%s" % (n, "decodes(valid BIP350 address)" if yields_script(a) else "rejected"))
+    rec = {"op": "addr.to_script", "address": addr, "string": s, "pattern": {str(k): v for k, v in e.items()}, "answer": a}
+    if n == 59:
+        # C11X.cross_pattern / cross_variant_neighbour_accepted
+        if e != CROSS_PATTERN_59 or s != neighbour59(addr) or ham != 4:
+            c.fail("the constructed cross-variant neighbour is not the pattern of theorem C11X.cross_pattern", rec)
+        ko = classify_script(origin[1])[0]
+        ks = classify_script(bytes.fromhex(a[3:]))[0] if yields_script(a) and classify_script(bytes.fromhex(a[3:])) else None
+        if ks != {"p2wsh": "p2tr", "p2tr": "p2wsh"}.get(ko):
+            c.fail("the cross-variant neighbour of a p2wsh/p2tr address does not yield the script of the other type "
+                   "(theorem C11X.cross_variant_neighbour_accepted)", dict(rec, origin_kind=ko, got_kind=ks))
+        if search:
+            sols = all_hops(59)
+            c.tally("hop:59-symbols:solutions-with-version-flip=%d" % len(sols))
+            if sols != [tuple(sorted(CROSS_PATTERN_59.items()))]:
+                c.fail("embit's bech32_polymod admits another cross-variant pattern of weight <= 4 for 59 symbols "
+                       "(theorem C11X.cross_variant_words)", dict(rec, solutions=[list(x) for x in sols]))
+    elif n == 39:
+        # C11X.cross_variant_p2wpkh_none; bech32.decode itself accepts the string (a valid v1 address, 20 bytes)
+        if yields_script(a):
+            c.fail("a 4-substitution neighbour of a p2wpkh address yields a script (theorem C11X.cross_variant_p2wpkh_none)", rec)
+        d = i_bech32dec(addr[:sep], s)
+        if not d.startswith("ok 1 20 "):
+            c.fail("bech32.decode rejects the BIP350-valid v1 neighbour of a p2wpkh address (theorem C11X.segwit_decode_iff)",
+                   dict(rec, decode=d))
     c.extra.setdefault("cross_variant_examples", [])
     if len(c.extra["cross_variant_examples"]) < 4:
         c.extra["cross_variant_examples"].append({"from": addr, "to": s, "substitutions": ham, "answer": a})
@@ -996,17 +1117,21 @@ def run(tier, seed):
               "and twice in thorough, sampled 2-4 substitutions and bursts, truncation, extension, insertion, deletion, transposition, "
               "case, separator, HRP swaps; (e) strings with a VALID checksum that are not addresses: unknown HRP, wrong checksum "
               "variant for the version, bad program length, version > 16, bad padding, empty data, > 90 chars, Base58Check "
-              "payloads of every length != 21 and unknown version bytes; (f) the constructed BIP350 cross-variant neighbour. "
+              "payloads of every length != 21 and unknown version bytes; (f) the constructed BIP350 cross-variant neighbour "
+              "(must be the proved pattern; in thorough tier every weight-<=4 pattern is enumerated with embit's polymod); "
+              "(g) per segwit address the all-upper-case and one mixed-case spelling. "
               "A case is distinct by content; non-trivial = every case except the empty byte string")
     c.assumptions = [
         "hash functions are parameters of the theorems; the driver's SHA-256 is validated against hashlib in the same run",
         "python str is modelled as a list of Unicode scalar values; surrogate code points are not generated",
-        "all-uppercase bech32 addresses are rejected by embit's address_to_scriptpubkey (BIP173 says a decoder must accept them); "
-        "the property text does not demand acceptance, the behaviour is modelled and recorded as an observation",
-        "address_to_scriptpubkey yields scripts for witness versions 0 and 1 only; valid v2-v16 addresses raise (modelled)",
-        "a string within <= 4 substitutions of a valid address that decodes is accepted by the check only when it is itself the "
-        "BIP173/BIP350 spec encoding of the returned script for a network of embit's table AND uses the other checksum variant "
-        "(the v0<->v1 neighbour every BIP350-conformant decoder accepts, DESIGN Appendix D)",
+        "all-uppercase bech32 addresses are rejected by embit's address_to_scriptpubkey (BIP173 says a decoder must accept them) "
+        "while bech32.decode accepts them; the property text does not demand acceptance, the behaviour is proved of the model "
+        "(C11X.to_script_iff_exact, upper_case_spelling) and checked on embit for every sampled segwit address",
+        "address_to_scriptpubkey yields scripts for witness versions 0 and 1 only; valid v2-v16 addresses raise (part of "
+        "C11X.to_script_iff)",
+        "a string within <= 4 data-part substitutions of a valid segwit address (HRP untouched) that decodes is accepted by the "
+        "check only when it is the characterised v0<->v1 neighbour of a p2wsh/p2tr address (C11X.cross_variant_iff: version "
+        "character plus offsets 45, 36, 16 from the end; DESIGN Appendix D) and never for a p2wpkh address",
     ]
     c.extra["networks_extracted"] = [{"name": n[0], "p2pkh": n[1].hex(), "p2sh": n[2].hex(), "bech32": n[3]} for n in f["networks"]]
     c.build_and_audit()
